@@ -25,6 +25,21 @@ CHECKS = {
         note="comparison tolerance read most leniently; division and pow are not part of the statement",
         tech="exhaustive enumeration of a bounded input box executed on the implementation, oracle = exact rational arithmetic",
         ref="DESIGN.md 2/C14"),
+    "C02": dict(
+        text="for a base corpus drawn from every design family, every single-fault mutant (declared width +-1, slice bound, empty slice, out-of-range index, concat part, anonymous-member width, referenced-port width, array count, missing connection, extra port, bad port / member reference, orphan signal / bundle / instance owned by nobody or by another module, referenced no-connect) is planted at every site; mutants the reference semantics calls ill-formed for that reason are run through elaborate, to_proto and netlist on fresh builds, each of which must raise; plus directly built cycles (length 1..3, depth 0..2), unnamed modules and module-name clashes",
+        note="base designs are every k-th design of each family (offset by VERIF_SEED); range bounds beyond [-w,w] follow C03's raise-or-clamp rule; a shared NoConn object is well-formed per C01's quantifier",
+        tech="exhaustive single-fault mutation of a bounded design corpus at every site, each mutant executed on the implementation; reference semantics decides ill-formedness",
+        ref="DESIGN.md 2/C02"),
+    "C04": dict(
+        text="all operation histories (call / setattr / connect / replace / disconnect x every kind of connectable, objects shared within a history) up to depth 2 (3 thorough) on an Instance, an InstanceArray and a Pair are replayed on fresh real objects; Instance.conns is compared with a last-writer-wins model after every step and every history is completed, elaborated, exported and compared with the reference semantics of its final mapping",
+        note="a state is the history reaching it (no merging); only histories whose completed final mapping is valid are judged at export level",
+        tech="breadth-first exploration of all operation sequences up to a depth bound on the real objects, invariant per state plus reference-model comparison of every terminal state",
+        ref="DESIGN.md 2/C04"),
+    "C05": dict(
+        text="every elaborator naming rule (implicit reference signal, unnamed / named no-connect, flattened members of internal, port and nested bundles, array and pair elements) x adversary object kinds named exactly like the invented name (every subset of N, N_, N__) x declaration order; oracle: exception, or a well-formed package that keeps every designer object under its own name and has exactly the reference partition",
+        note="a clash may be resolved by a fresh name or by raising",
+        tech="exhaustive enumeration of adversarially named design programs executed on the implementation, compared with a reference semantics",
+        ref="DESIGN.md 2/C05"),
     "C06": dict(
         text="the well-formedness predicate (closure, uniqueness, definition-before-use, exactly-once port connection, in-range slices, width agreement) plus from_proto / spice / spectre acceptance is evaluated on every package returned by to_proto over all design families, the example scripts (to_proto intercepted), the built-in generators, generated-name pairs and PDK-compiled designs",
         note="netlister acceptance demanded only of packages without uncompiled physical primitives; quick tier takes a fixed arithmetic sub-sequence of the two largest families (reported as a cap)",
